@@ -308,6 +308,12 @@ Theorem C02_source_layout_tied : layout_statement.
 Proof. exact layout_tied. Qed.
 Print Assumptions C02_source_layout_tied.
 
+(* every coordinate-padding site of Encrypt, Decrypt, CipherUnmarshal, ZA, keCoordBytes (inline block or a helper that is
+   exactly that block), read with the constants of the source, is the model's pad32 on every buffer *)
+Theorem C02_source_pad_sites_tied : pad_sites_statement.
+Proof. exact pad_sites_tied. Qed.
+Print Assumptions C02_source_pad_sites_tied.
+
 (* ---- non-vacuity: concrete instances, evaluated (key d = 1, nonce k = 2, three-byte plaintext) ------- *)
 Example C02_kdf_example :
   fst (kdf 33 [1; 2]%N) = firstn 33 (sm3 [1; 2; 0; 0; 0; 1]%N ++ sm3 [1; 2; 0; 0; 0; 2]%N) /\ snd (kdf 33 [1; 2]%N) = true /\
